@@ -114,7 +114,7 @@ ZERO_PARAM_MODELS = [('ising', (1.0, 0.0, 0.0)), ('ising', (0.7, 0.0, 0.4)), ('i
                      ('fermi', (1.0, 0.0, 0.0)), ('fermi', (0.0, 1.0, 0.0))]
 
 PROFILES = ['one', 'random', 'max', 'over', 'disjoint', 'deficient']
-LAYOUTS = ['zero', 'sorted', 'unsorted', 'repeated', 'pairs', 'huge']
+LAYOUTS = ['zero', 'sorted', 'unsorted', 'repeated', 'pairs', 'huge', 'aliased']
 KINDS = ['complex', 'real', 'int', 'float32', 'mixed', 'complex64', 'complex-be', 'real-be']
 
 
@@ -125,6 +125,11 @@ def _qd(rng, d, layout):
         return np.full(d, int(rng.integers(-1, 2)))
     if layout == 'pairs':
         return (rng.integers(0, 2, size=d) << 16) + rng.integers(-1, 2, size=d)
+    if layout == 'aliased':
+        # distinct physical charges that coincide modulo 2**32 / 2**16 (sums over <= 8 sites stay far inside int64)
+        step = int(rng.choice([1 << 32, 1 << 16, 1 << 31]))
+        pool = np.array([0, step, -step, 1, 1 + step], dtype=np.int64)
+        return pool[rng.integers(0, len(pool), size=d)]
     if layout == 'huge':
         # physical charges beyond 2**53 differing by single units (sums over <= 8 sites stay inside int64, but are not representable as doubles)
         return int(rng.choice([(1 << 53) + 1, -(1 << 55) - 3])) + rng.integers(-1, 2, size=d).astype(np.int64)
@@ -160,7 +165,7 @@ def mps_case(ctx, idx, rng):
         struct = 'none+' + gen.pseudo_canonical(rng, psi, 'complex-orthogonal')
     elif idx % 11 == 6 and kind in ('complex', 'real') and prof != 'deficient':
         struct = struct + '+' + gen.pseudo_canonical(rng, psi)          # looks canonical (norm coincidences), is not
-    if idx % 8 == 3 and layout not in ('pairs', 'huge'):
+    if idx % 8 == 3 and layout not in ('pairs', 'huge', 'aliased'):
         # quantum numbers stored in a narrower integer type (values are small: no overflow in any legitimate sum)
         dt = (np.int32, np.int16, np.int8)[(idx // 8) % 3]
         psi.qd = psi.qd.astype(dt)
